@@ -1035,6 +1035,25 @@ func runRoot(c *Ctx) {
 			}
 		}
 		if n == 0 {
+			// a scan written in terms of a sibling scan of the same handle (`ScanRange` as a `ScanMin` that stops
+			// early) starts where that one starts, and that one is in this table
+			deleg := ""
+			for _, lp := range paths {
+				for _, e := range lp.Events {
+					if e.Kind != "call" || len(e.Args) == 0 || e.Args[0] != recv {
+						continue
+					}
+					for _, sib := range []string{"(*db.Table).Scan", "(*db.Index).Scan", "(*db.Index).ScanMin", "(*db.Index).ScanEq", "(*db.Index).ScanRange"} {
+						if e.Name == sib && sib != spec.fn {
+							deleg = sib
+						}
+					}
+				}
+			}
+			if deleg != "" {
+				c.Pass(spec.fn, fn.Pos(), "delegates to %s on the same handle, which starts at the handle's own root", deleg)
+				continue
+			}
 			c.Fail(spec.fn, fn.Pos(), "no b-tree iteration is started")
 			continue
 		}
